@@ -100,3 +100,41 @@ Contract(
     loops={1: {'inv': ['L == len(shape) and len(res) == L', 'res[0] == 1', 'stride == res[_i]',
                        'forall(1, _i + 1, lambda a: res[a] == res[a - 1] * shape[a - 1])']}},
 )
+
+
+def _replay_get_leg_index(m, ghost):
+    rank = m.int('self.rank')
+    label = m.int('label')
+    if not (1 <= rank <= 6):
+        return None
+
+    def run():
+        import numpy as np
+        import tenpy.linalg.np_conserved as npc
+        a = npc.Array.from_ndarray_trivial(np.zeros((1,) * rank))
+        try:
+            r = a.get_leg_index(label)
+        except ValueError:
+            return (not (-rank <= label < rank)), f'ValueError for label {label}, rank {rank}'
+        ok = (-rank <= label < rank) and r == label % rank
+        return ok, f'get_leg_index({label}) on a rank-{rank} array returned {r} (numpy: axis out of range)'
+    return {'input': {'rank': rank, 'label': label}, 'run': run}
+
+
+Contract(
+    target=f'{NPC}::Array.get_leg_index', props=['C01'], name='Array.get_leg_index[int]',
+    params={'self': Obj('Array', NPC, {'rank': Int(), '_labels': Const([])}), 'label': Int()},
+    requires=['self.rank >= 1'],   # type invariant: tenpy arrays have at least one leg
+    # integer axes follow numpy: valid iff -rank <= label < rank ("the same class of error")
+    raises={'ValueError': 'not (-self.rank <= label < self.rank)'},
+    ensures=['result == ite(label < 0, label + self.rank, label)', '0 <= result < self.rank'],
+    replay=_replay_get_leg_index,
+)
+
+Contract(
+    target=f'{NPC}::Array.get_leg_index', props=['C01'], name='Array.get_leg_index[str]',
+    params={'self': Obj('Array', NPC, {'rank': Const(3), '_labels': Const(['a', None, 'b'])}),
+            'label': OneOf('a', 'b', 'c')},
+    raises={'KeyError': "label == 'c'"},
+    ensures=['self._labels[result] == label'],
+)
